@@ -45,3 +45,17 @@ Fixpoint run_prefix_log {A} (k : nat) (p : prog A) (st : store) : store * option
       end
   | Touch _ p' => run_prefix_log k p' st
   end.
+
+(* faults and a crash in one request: the plan applies to the calls performed before the crash *)
+Fixpoint run_fault_prefix_log {A} (plan : nat -> fault) (n : nat) (k : nat) (p : prog A) (st : store)
+  : store * option A * list ckind :=
+  match p with
+  | Ret a => (st, Some a, [])
+  | Do c kont =>
+      match k with
+      | O => (st, None, [])
+      | S k' => let '(st', r) := exec_fault (plan n) c st in
+                let '(st'', a, l) := run_fault_prefix_log plan (S n) k' (kont r) st' in (st'', a, call_kind c :: l)
+      end
+  | Touch _ p' => run_fault_prefix_log plan n k p' st
+  end.
